@@ -77,11 +77,12 @@ struct Parked {
     handle: tokio::task::JoinHandle<Res>,
 }
 
-fn park_all(conn: &Connection, rng: &mut Rng, extra_streams: bool, keep: &mut Vec<Box<dyn std::any::Any + Send>>) -> Vec<Parked> {
+fn park_all(conn: &Connection, rng: &mut Rng, backlog: Backlog, keep: &mut Vec<Box<dyn std::any::Any + Send>>) -> Vec<Parked> {
     let mut v = vec![];
     let clones = rng.usize(1, 4);
     for k in 0..clones {
         let c = conn.clone();
+        if backlog != Backlog::Uni {
         v.push(Parked {
             name: "accept_uni",
             handle: tokio::spawn(async move {
@@ -91,8 +92,10 @@ fn park_all(conn: &Connection, rng: &mut Rng, extra_streams: bool, keep: &mut Ve
                 }
             }),
         });
+        }
         if k == 0 {
             let c = conn.clone();
+            if backlog != Backlog::Bi {
             v.push(Parked {
                 name: "accept_bi",
                 handle: tokio::spawn(async move {
@@ -102,6 +105,7 @@ fn park_all(conn: &Connection, rng: &mut Rng, extra_streams: bool, keep: &mut Ve
                     }
                 }),
             });
+            }
             let c = conn.clone();
             v.push(Parked {
                 name: "receive_datagram",
@@ -116,8 +120,67 @@ fn park_all(conn: &Connection, rng: &mut Rng, extra_streams: bool, keep: &mut Ve
             v.push(Parked { name: "closed", handle: tokio::spawn(async move { Res::Conn(conn_err(&c.closed().await)) }) });
         }
     }
-    let _ = (extra_streams, keep);
+    let _ = keep;
     v
+}
+
+/// Streams of one kind the peer opened and the application never accepted before the end: the
+/// calls of the *other* kind, and everything else, must still complete.
+#[derive(Clone, Copy, Debug, PartialEq, Eq)]
+enum Backlog {
+    None,
+    Uni,
+    Bi,
+}
+
+async fn make_backlog(peer: &Connection, backlog: Backlog, n: usize) -> Result<Vec<Box<dyn std::any::Any + Send>>, String> {
+    let mut keep: Vec<Box<dyn std::any::Any + Send>> = vec![];
+    for i in 0..n {
+        match backlog {
+            Backlog::None => {}
+            Backlog::Uni => {
+                let mut s = within(ms(2000), async { peer.open_uni().await.map_err(|e| e.to_string())?.await.map_err(|e| e.to_string()) }).await.done().ok_or("open_uni timed out")??;
+                s.write_all(&[i as u8; 10]).await.map_err(|e| e.to_string())?;
+                keep.push(Box::new(s));
+            }
+            Backlog::Bi => {
+                let (mut s, r) = within(ms(2000), async { peer.open_bi().await.map_err(|e| e.to_string())?.await.map_err(|e| e.to_string()) }).await.done().ok_or("open_bi timed out")??;
+                s.write_all(&[i as u8; 10]).await.map_err(|e| e.to_string())?;
+                keep.push(Box::new((s, r)));
+            }
+        }
+    }
+    tokio::time::sleep(ms(150)).await;
+    Ok(keep)
+}
+
+/// Calls on a stream that existed before the end and was idle when it came: each of them, and each
+/// repetition, must fail; none may report success for data nobody acknowledged.
+async fn later_stream_calls(s: &mut wtransport::SendStream, r: &mut wtransport::RecvStream) -> Vec<(&'static str, Res)> {
+    let mut out = vec![];
+    let w = |x: Waited<Result<String, StreamWriteError>>| match x {
+        Waited::Done(Ok(v)) => Res::Ok(v),
+        Waited::Done(Err(StreamWriteError::NotConnected)) => Res::Stream("NotConnected".into()),
+        Waited::Done(Err(e)) => Res::Stream(format!("{e:?}")),
+        Waited::TimedOut => Res::Hung,
+    };
+    out.push(("later write", w(within(BOUND, async { s.write_all(b"after the end").await.map(|_| "wrote".to_string()) }).await)));
+    out.push(("later finish", w(within(BOUND, async { s.finish().await.map(|_| "finished".to_string()) }).await)));
+    out.push(("later finish (repeated)", w(within(BOUND, async { s.finish().await.map(|_| "finished".to_string()) }).await)));
+    out.push(("later finish (third)", w(within(BOUND, async { s.finish().await.map(|_| "finished".to_string()) }).await)));
+    out.push(("later stopped", w(within(BOUND, async { Err::<String, _>(s.stopped().await) }).await)));
+    out.push(("later write (after finish)", w(within(BOUND, async { s.write(b"x").await.map(|n| format!("wrote {n}")) }).await)));
+    let mut buf = [0u8; 8];
+    out.push((
+        "later read",
+        match within(BOUND, r.read(&mut buf)).await {
+            Waited::Done(Ok(x)) => Res::Ok(format!("{x:?}")),
+            Waited::Done(Err(StreamReadError::NotConnected)) => Res::Stream("NotConnected".into()),
+            Waited::Done(Err(e)) => Res::Stream(format!("{e:?}")),
+            Waited::TimedOut => Res::Hung,
+        },
+    ));
+    out
 }
 
 /// Stream-level pending operations on streams that exist before the event.
@@ -199,15 +262,44 @@ async fn collect(parked: Vec<Parked>) -> Vec<(&'static str, Res)> {
     out
 }
 
-async fn later_calls(conn: &Connection) -> Vec<(&'static str, Res)> {
+async fn later_calls(conn: &Connection, backlog: Backlog) -> Vec<(&'static str, Res)> {
     let mut out = vec![];
+    // streams delivered before the end may still be handed out; after at most that many the
+    // calls must fail
+    let (du, db) = (if backlog == Backlog::Uni { 16 } else { 0 }, if backlog == Backlog::Bi { 16 } else { 0 });
     let c = |r: Waited<Result<String, ConnectionError>>| match r {
         Waited::Done(Ok(s)) => Res::Ok(s),
         Waited::Done(Err(e)) => Res::Conn(conn_err(&e)),
         Waited::TimedOut => Res::Hung,
     };
-    out.push(("later accept_uni", c(within(BOUND, async { conn.accept_uni().await.map(|s| format!("stream {}", s.id())) }).await)));
-    out.push(("later accept_bi", c(within(BOUND, async { conn.accept_bi().await.map(|s| format!("stream {}", s.0.id())) }).await)));
+    out.push((
+        "later accept_uni",
+        c(within(BOUND, async {
+            let mut n = 0;
+            loop {
+                match conn.accept_uni().await {
+                    Ok(s) if n >= du => break Ok(format!("stream {} (after {n} backlog streams)", s.id())),
+                    Ok(_) => n += 1,
+                    Err(e) => break Err(e),
+                }
+            }
+        })
+        .await),
+    ));
+    out.push((
+        "later accept_bi",
+        c(within(BOUND, async {
+            let mut n = 0;
+            loop {
+                match conn.accept_bi().await {
+                    Ok(s) if n >= db => break Ok(format!("stream {} (after {n} backlog streams)", s.0.id())),
+                    Ok(_) => n += 1,
+                    Err(e) => break Err(e),
+                }
+            }
+        })
+        .await),
+    ));
     out.push(("later receive_datagram", c(within(BOUND, async { conn.receive_datagram().await.map(|d| format!("{} bytes", d.payload().len())) }).await)));
     out.push(("later closed", c(within(BOUND, async { Err::<String, _>(conn.closed().await) }).await)));
     // open_*: either the call or the opening future must fail
@@ -270,9 +362,9 @@ fn judge(rep: &mut Report, cause: Cause, role: &str, results: &[(&'static str, R
 }
 
 /// wtransport <-> wtransport scenarios (peer close, local close, endpoint close, idle timeout).
-async fn pair_case(cause: Cause, observe_client: bool, seed: u64, rep: &mut Report) {
+async fn pair_case(cause: Cause, observe_client: bool, backlog: Backlog, seed: u64, rep: &mut Report) {
     let role = if observe_client { "client" } else { "server" };
-    let ctx = format!("pair|{cause:?}|observed={role}");
+    let ctx = format!("pair|{cause:?}|observed={role}{}", if backlog == Backlog::None { String::new() } else { format!("|backlog={backlog:?}") });
     rep.eval(ctx.clone());
     let relay = cause == Cause::IdleTimeout;
     let mut ct = ends::default_transport();
@@ -289,8 +381,20 @@ async fn pair_case(cause: Cause, observe_client: bool, seed: u64, rep: &mut Repo
     let (me, peer) = if observe_client { (pair.cconn.clone(), pair.sconn.clone()) } else { (pair.sconn.clone(), pair.cconn.clone()) };
     let mut rng = Rng::new(seed);
     let mut keep = vec![];
-    let mut parked = park_all(&me, &mut rng, true, &mut keep);
+    let _backlog_keep = match make_backlog(&peer, backlog, 9).await {
+        Ok(k) => k,
+        Err(e) => return rep.inconclusive(format!("{ctx}: backlog {e}")),
+    };
+    let mut parked = park_all(&me, &mut rng, backlog, &mut keep);
     parked.extend(park_streams(&me, Some(&peer)).await);
+    // an idle stream pair used only after the end
+    let mut idle = match within(ms(1000), async { me.open_bi().await.ok()?.await.ok() }).await {
+        Waited::Done(Some(mut p)) => {
+            let _ = p.0.write_all(b"idle").await;
+            Some(p)
+        }
+        _ => None,
+    };
     tokio::time::sleep(ms(rng.range(0, 30))).await;
     match cause {
         Cause::PeerQuicClose => peer.close(VarInt::try_from_u64(CODE).unwrap(), REASON),
@@ -310,7 +414,10 @@ async fn pair_case(cause: Cause, observe_client: bool, seed: u64, rep: &mut Repo
         _ => unreachable!(),
     }
     let mut results = collect(parked).await;
-    results.extend(later_calls(&me).await);
+    results.extend(later_calls(&me, backlog).await);
+    if let Some((s, r)) = idle.as_mut() {
+        results.extend(later_stream_calls(s, r).await);
+    }
     // a hang is only believed when the heartbeat task kept running during the wait
     if results.iter().any(|(_, r)| *r == Res::Hung) && hb.beats() < 200 {
         return rep.inconclusive(format!("{ctx}: runtime not live enough ({} beats) to trust a hang", hb.beats()));
@@ -334,8 +441,15 @@ async fn raw_case(cause: Cause, role: Role, seed: u64, rep: &mut Report) {
     let hb = Heartbeat::start();
     let mut rng = Rng::new(seed);
     let mut keep = vec![];
-    let mut parked = park_all(&live.conn, &mut rng, false, &mut keep);
+    let mut parked = park_all(&live.conn, &mut rng, Backlog::None, &mut keep);
     parked.extend(park_streams(&live.conn, None).await);
+    let mut idle = match within(ms(1000), async { live.conn.open_bi().await.ok()?.await.ok() }).await {
+        Waited::Done(Some(mut p)) => {
+            let _ = p.0.write_all(b"idle").await;
+            Some(p)
+        }
+        _ => None,
+    };
     tokio::time::sleep(ms(rng.range(0, 30))).await;
     match cause {
         Cause::PeerQuicClose => live.peer.close(CODE, REASON),
@@ -359,7 +473,10 @@ async fn raw_case(cause: Cause, role: Role, seed: u64, rep: &mut Report) {
         _ => unreachable!(),
     }
     let mut results = collect(parked).await;
-    results.extend(later_calls(&live.conn).await);
+    results.extend(later_calls(&live.conn, Backlog::None).await);
+    if let Some((s, r)) = idle.as_mut() {
+        results.extend(later_stream_calls(s, r).await);
+    }
     if results.iter().any(|(_, r)| *r == Res::Hung) && hb.beats() < 200 {
         return rep.inconclusive(format!("{ctx}: runtime not live enough to trust a hang"));
     }
@@ -583,9 +700,20 @@ pub fn run(args: &Args) -> Report {
                         let seed = args.seed * 1000 + k * 50 + cause as u64 * 2 + observe_client as u64;
                         set.spawn(async move {
                             let mut r = Report::new();
-                            pair_case(cause, observe_client, seed, &mut r).await;
+                            pair_case(cause, observe_client, Backlog::None, seed, &mut r).await;
                             r
                         });
+                        // unaccepted streams of one kind queued in the driver when the end comes
+                        if matches!(cause, Cause::PeerQuicClose | Cause::LocalClose) || args.thorough {
+                            let backlog = if (k + observe_client as u64 + cause as u64) % 2 == 0 { Backlog::Uni } else { Backlog::Bi };
+                            for b in if args.thorough { vec![Backlog::Uni, Backlog::Bi] } else { vec![backlog] } {
+                                set.spawn(async move {
+                                    let mut r = Report::new();
+                                    pair_case(cause, observe_client, b, seed ^ 0x5a5a, &mut r).await;
+                                    r
+                                });
+                            }
+                        }
                     }
                 }
                 for cause in [Cause::PeerQuicClose, Cause::PeerCapsule, Cause::PeerFin, Cause::ProtocolError] {
